@@ -445,6 +445,7 @@ func c14Gen(r *hx.Rng, n int, tier string) []string {
 	}
 	sites = append(sites, directedParams(pstep)...)
 	sites = append(sites, directedDeriver(pstep)...)
+	sites = append(sites, directedJSONText()...)
 	lines = append(lines, sites...)
 	n += len(sites) // the random part keeps its size
 	for len(lines) < n {
@@ -454,6 +455,14 @@ func c14Gen(r *hx.Rng, n int, tier string) []string {
 		}
 		if r.Chance(7) {
 			lines = append(lines, randomDeriver(r))
+			continue
+		}
+		if r.Chance(9) { // the JSON text layer (gen_json.go)
+			if r.Chance(70) {
+				lines = append(lines, jsonTextCase(r))
+			} else {
+				lines = append(lines, jsonEncryptedCase(r))
+			}
 			continue
 		}
 		x := r.Intn(100)
